@@ -20,6 +20,7 @@ from . import common
 from .common import Violation, HarnessError, Collector, to_jsonable, from_jsonable
 
 VERIF = common.VERIF
+OUT = os.environ.get('VERIF_OUT') or VERIF      # evidence/ and replays/ go here (mutant runs redirect it)
 
 
 def load_known(pid):
@@ -79,11 +80,11 @@ def merge(results):
 
 
 def write_replay(pid, failure):
-    os.makedirs(os.path.join(VERIF, 'replays'), exist_ok=True)
+    os.makedirs(os.path.join(OUT, 'replays'), exist_ok=True)
     body = {'property': pid, 'key': failure['key'], 'what': failure['what'],
             'case': failure['case'], 'spec': failure.get('spec')}
     h = common.case_hash(body).hex()
-    path = os.path.join(VERIF, 'replays', '%s-%s.json' % (pid, h))
+    path = os.path.join(OUT, 'replays', '%s-%s.json' % (pid, h))
     with open(path, 'w') as f:
         json.dump(body, f, indent=1, sort_keys=True)
     return path
@@ -119,8 +120,8 @@ def write_evidence(pid, tier, seed, mod, m, wall, n_viol, known_lines):
         'wall_s': round(wall, 2),
         'violations': n_viol,
     }
-    os.makedirs(os.path.join(VERIF, 'evidence'), exist_ok=True)
-    path = os.path.join(VERIF, 'evidence', '%s.json' % pid)
+    os.makedirs(os.path.join(OUT, 'evidence'), exist_ok=True)
+    path = os.path.join(OUT, 'evidence', '%s.json' % pid)
     tmp = path + '.tmp'
     with open(tmp, 'w') as f:
         json.dump(ev, f, indent=1, sort_keys=True)
@@ -229,7 +230,7 @@ def main(argv=None):
             path = write_replay(pid, f)
             n_viol += 1
             out_lines.append('violation: %s -- %s' % (f['key'], f['what']))
-            out_lines.append('VIOLATION property=%s replay=%s' % (pid, os.path.relpath(path, VERIF)))
+            out_lines.append('VIOLATION property=%s replay=%s' % (pid, os.path.relpath(path, OUT)))
     wall = time.time() - t0
     write_evidence(pid, tier, seed, mod, m, wall, n_viol, known_lines)
     for l in out_lines:
